@@ -22,8 +22,10 @@ import numpy as np
 
 RULE = ("translator: the kernel trace is validated on random inputs each run; numeric support: "
         "random states |lat|<=85 deg, any lon, alt -500..20000 m, speed<=300 m/s, any attitude; "
-        "3-axis sum-of-sinusoid signals up to ~3 rad/s and ~2 g; both sensor types; h in 5..40 ms halved "
-        "three times, horizons 2 s .. 10 min; a case is distinct by (kind, seed, index)")
+        "3-axis sum-of-sinusoid signals up to ~3 rad/s and ~2 g; both sensor types; h in 4..40 ms (decimal, dyadic, "
+        "1/75..1/300 s, multiples of 100 ns, random floats) halved three times, horizons 2 s .. 10 min; IMU tables "
+        "with time axes starting at 0 / GPS-like seconds / jittered, checked row by row against the per-row formulas; "
+        "2-3 Integrator objects alive together and advanced alternately; a case is distinct by (kind, seed, index)")
 
 # ---- constants of Base/RealTac.v (NOT imported from pyins, so that the oracle is independent)
 A_ = 6378137.0
@@ -101,7 +103,19 @@ class Signal:
         return Signal(o['c'], o['a'], o['om'], o['p'])
 
 
-def make_case(rng, kind, long=False):
+def draw_interval(rng, cls):
+    """A sampling interval in about 4..40 ms.  Real loggers are not decimal-round: binary dividers (1/128 s),
+    rates like 75 / 150 / 300 Hz, 100 ns clock ticks, or simply measured floats."""
+    if cls == 0:
+        return rng.choice([0.04, 0.02, 0.01, 0.005])
+    if cls == 1:
+        return rng.choice([1 / 32, 1 / 64, 1 / 128, 1 / 256, 3 / 256, 5 / 512])
+    if cls == 2:
+        return rng.choice([1 / 75, 1 / 150, 1 / 300, 1 / 30, rng.randint(40000, 400000) * 1e-7])
+    return rng.uniform(0.004, 0.04)
+
+
+def make_case(rng, kind, long=False, hcls=0):
     """A random trajectory case inside the property's domain."""
     lat = rng.choice([rng.uniform(-85, 85), rng.uniform(-85, -60), rng.uniform(60, 85), rng.uniform(-5, 5)])
     lon = rng.uniform(-180, 180)
@@ -124,7 +138,7 @@ def make_case(rng, kind, long=False):
                   [[x * fscale for x in row] for row in fa],
                   [[rng.uniform(0.5, fmax) for _ in range(nj)] for _ in range(3)],
                   [[rng.uniform(0, 2 * math.pi) for _ in range(nj)] for _ in range(3)])
-    h = rng.choice([0.04, 0.02, 0.01, 0.005])
+    h = draw_interval(rng, hcls)
     T = rng.choice([2.0, 4.0]) if not long else rng.choice([30.0, 120.0])
     case = dict(kind=kind, lla=[lat, lon, alt], v=v.tolist(), rph=rph, w=wsig.to_json(), f=fsig.to_json(),
                 h=h, T=T)
@@ -150,7 +164,7 @@ def run_impl(case, h):
     from pyins import strapdown
     from pyins.util import GYRO_COLS, ACCEL_COLS, LLA_COLS, VEL_COLS, RPH_COLS
     wsig, fsig = Signal.from_json(case['w']), Signal.from_json(case['f'])
-    n = int(round(case['T'] / h))
+    n = int(math.floor(case['T'] / case['h'] + 1e-9)) * int(round(case['h'] / h))   # whole coarse intervals
     t = np.arange(0, n + 1) * h
     if case['kind'] == 'rate':
         gyro, accel = wsig.values(t), fsig.values(t)
@@ -251,6 +265,161 @@ def halving_case(case):
     return bad, info
 
 
+# ---- one table of IMU samples -> increments, row by row -----------------------------------------
+def incrow_case(rng, kind):
+    """A short IMU table with a realistic time axis: start at 0, at some seconds, or at GPS/UNIX-like seconds;
+    uniform intervals of every class of draw_interval, or a jittered axis."""
+    m = rng.randint(3, 7)
+    t0 = rng.choice([0.0, rng.uniform(0, 100), rng.uniform(1e3, 1e5), 1.3e9 + rng.randint(0, 10 ** 6) * 0.5])
+    h = draw_interval(rng, rng.randrange(4)) / rng.choice([1, 1, 2, 8])
+    if rng.random() < 0.25:
+        steps = [h * rng.uniform(0.7, 1.3) for _ in range(m - 1)]
+    else:
+        steps = [h] * (m - 1)
+    t = [t0]
+    for st in steps:
+        t.append(t[-1] + st)
+    sc = (3.0, 20.0) if kind == 'rate' else (3.0 * h, 20.0 * h)
+    rows = [[rng.uniform(-sc[0], sc[0]) for _ in range(3)] + [rng.uniform(-sc[1], sc[1]) for _ in range(3)]
+            for _ in range(m)]
+    return dict(kind=kind, t=t, rows=rows)
+
+
+def incrow_expected(kind, t, rows):
+    """Hand transcription of the per-row formulas (Model/KernelHand.v h_rate_* / h_incr_*, proved equal to the
+    generated Gen/C01Gen.v inc_rate_* / inc_incr_*), dt = difference of the time stamps."""
+    x = np.asarray(rows, float)
+    t = np.asarray(t, float)
+    out = []
+    for k in range(1, len(t)):
+        dt = t[k] - t[k - 1]
+        ga, fa, ge, fe = x[k - 1, :3], x[k - 1, 3:], x[k, :3], x[k, 3:]
+        if kind == 'rate':
+            gi = (ga + 0.5 * (ge - ga)) * dt
+            fi = (fa + 0.5 * (fe - fa)) * dt
+            th = gi + np.cross(ga, ge - ga) * (dt * dt) / 12
+            dv = fi + (np.cross(ga, fe - fa) + np.cross(fa, ge - ga)) * (dt * dt) / 12 + 0.5 * np.cross(gi, fi)
+        else:
+            th = ge + np.cross(ga, ge) / 12
+            dv = fe + (np.cross(ga, fe) + np.cross(fa, ge)) / 12 + 0.5 * np.cross(ge, fe)
+        out.append(np.hstack([[dt], th, dv]))
+    return np.array(out)
+
+
+def incrow_check(c):
+    """Returns a description of the first disagreement or None."""
+    import pandas as pd
+    from pyins import strapdown
+    from pyins.util import GYRO_COLS, ACCEL_COLS
+    imu = pd.DataFrame(np.asarray(c['rows'], float), index=pd.Index(c['t'], name='time'),
+                       columns=GYRO_COLS + ACCEL_COLS)
+    inc = strapdown.compute_increments_from_imu(imu, c['kind'])
+    got = inc[['dt', 'theta_x', 'theta_y', 'theta_z', 'dv_x', 'dv_y', 'dv_z']].values.astype(float)
+    want = incrow_expected(c['kind'], c['t'], c['rows'])
+    if got.shape != want.shape:
+        return f"{got.shape[0]} increment rows for {len(c['t'])} samples"
+    if not np.array_equal(np.asarray(inc.index, float), np.asarray(c['t'][1:], float)):
+        return "increments are not labelled with the time stamps of the samples"
+    ulp = np.spacing(np.abs(np.asarray(c['t'], float)).max())
+    for k in range(len(want)):
+        if abs(got[k, 0] - want[k, 0]) > 4 * ulp:
+            return (f"row {k}: dt={got[k, 0]!r} but the time stamps differ by {want[k, 0]!r} "
+                    f"(sampling interval distorted by {abs(got[k, 0] / want[k, 0] - 1):.2e})")
+        scale = np.abs(want[k, 1:]).max() + 1e-300
+        err = np.abs(got[k, 1:] - want[k, 1:]).max()
+        if err > 1e-11 * scale + 16 * ulp / want[k, 0] * scale:
+            return f"row {k}: increments {got[k, 1:].tolist()} differ from the per-row formulas {want[k, 1:].tolist()}"
+    return None
+
+
+# ---- several Integrator objects alive at the same time ------------------------------------------
+def interleave_case(rng):
+    """2 or 3 independent navigation problems (own initial state, own signals, own sampling)."""
+    n = rng.choice([2, 2, 3])
+    cases = []
+    for k in range(n):
+        c = make_case(rng, rng.choice(['rate', 'increment']), hcls=rng.randrange(4))
+        c['T'] = 1.0
+        c['chunks'] = sorted(rng.uniform(0.1, 0.9) for _ in range(rng.choice([1, 2, 3])))
+        cases.append(c)
+    return dict(cases=cases, late=rng.random() < 0.5)
+
+
+def _prepare(case):
+    import pandas as pd
+    from pyins import strapdown
+    from pyins.util import GYRO_COLS, ACCEL_COLS, LLA_COLS, VEL_COLS, RPH_COLS
+    wsig, fsig = Signal.from_json(case['w']), Signal.from_json(case['f'])
+    h = case['h']
+    n = int(math.floor(case['T'] / h + 1e-9))
+    t = np.arange(0, n + 1) * h
+    if case['kind'] == 'rate':
+        gyro, accel = wsig.values(t), fsig.values(t)
+    else:
+        gyro, accel = wsig.prim(t) - wsig.prim(t - h), fsig.prim(t) - fsig.prim(t - h)
+    imu = pd.DataFrame(np.hstack([gyro, accel]), index=pd.Index(t, name='time'), columns=GYRO_COLS + ACCEL_COLS)
+    inc = strapdown.compute_increments_from_imu(imu, case['kind'])
+    pva = pd.Series(list(case['lla']) + list(case['v']) + list(case['rph']),
+                    index=LLA_COLS + VEL_COLS + RPH_COLS, name=0.0)
+    cuts = sorted(set(max(1, min(len(inc) - 1, int(len(inc) * q))) for q in case['chunks'])) + [len(inc)]
+    return pva, inc, cuts
+
+
+def _snapshot(integ, m):
+    return np.hstack([integ.lla[:m].copy(), integ.velocity_n[:m].copy(), integ.mat_nb[:m].reshape(m, 9).copy()])
+
+
+def interleave_check(c):
+    """Every Integrator depends only on its own initial state and the increments given to IT: objects created
+    first and then advanced alternately in chunks must reproduce, bit for bit, what each does when run alone."""
+    from pyins import strapdown
+    prep = [_prepare(case) for case in c['cases']]
+    alone = []
+    for pva, inc, cuts in prep:
+        integ = strapdown.Integrator(pva)
+        prev, parts = 0, []
+        for cut in cuts:
+            parts.append(integ.integrate(inc.iloc[prev:cut]).values.copy())
+            prev = cut
+        alone.append((_snapshot(integ, len(inc) + 1), parts, integ.trajectory.values.copy()))
+    objs = [strapdown.Integrator(pva) for pva, _, _ in (prep[:-1] if c.get('late') else prep)]
+    pos = [0] * len(prep)
+    parts = [[] for _ in prep]
+    rounds = max(len(cuts) for _, _, cuts in prep)
+    for rnd in range(rounds):
+        if rnd == 1 and c.get('late'):
+            objs.append(strapdown.Integrator(prep[-1][0]))     # a further object created while the others are in use
+        for k in range(len(objs)):
+            pva, inc, cuts = prep[k]
+            if pos[k] < len(cuts):
+                prev = cuts[pos[k] - 1] if pos[k] else 0
+                parts[k].append(objs[k].integrate(inc.iloc[prev:cuts[pos[k]]]).values.copy())
+                pos[k] += 1
+    if c.get('late') and len(objs) < len(prep):
+        objs.append(strapdown.Integrator(prep[-1][0]))
+    for k in range(len(prep)):                                  # finish whatever is left
+        pva, inc, cuts = prep[k]
+        while pos[k] < len(cuts):
+            prev = cuts[pos[k] - 1] if pos[k] else 0
+            parts[k].append(objs[k].integrate(inc.iloc[prev:cuts[pos[k]]]).values.copy())
+            pos[k] += 1
+    for k in range(len(prep)):
+        snap, parts_alone, traj = alone[k]
+        m = len(prep[k][1]) + 1
+        got = _snapshot(objs[k], m)
+        if not np.array_equal(got, snap):
+            bad = np.argwhere(got != snap)
+            i = int(bad[0][0])
+            return (f"integrator {k} of {len(prep)} alive together: state row {i} differs from the same integrator "
+                    f"run alone: {got[i, :6].tolist()} vs {snap[i, :6].tolist()}")
+        if not np.array_equal(objs[k].trajectory.values, traj, equal_nan=True):
+            return f"integrator {k} of {len(prep)} alive together: .trajectory differs from the same integrator run alone"
+        for j, (a, b) in enumerate(zip(parts[k], parts_alone)):
+            if not np.array_equal(a, b, equal_nan=True):
+                return f"integrator {k} of {len(prep)} alive together: chunk {j} returned by integrate() differs from the run alone"
+    return None
+
+
 # ---- direct finite-difference consistency of the compiled kernel ---------------------------
 def kernel_step(y, dt, th, dv):
     """One step of the compiled kernel.  The state is placed at buffer row 1 (offset = 1) below a row of
@@ -322,11 +491,27 @@ def numeric_support(r, n_traj, n_fd, seed_off=0, n_long=0, n_gentle=0):
         if bad:
             fails.append((f"kernel step is not first-order consistent with nav_rhs: {bad[:3]}",
                           dict(key='fd-consistency', kind='fd', case=c)))
+    n_rows = 10 * n_fd // 8
+    for i in range(n_rows):
+        c = incrow_case(rng, 'rate' if i % 2 == 0 else 'increment')
+        what = incrow_check(c)
+        r.case(('incrow', r.seed, seed_off, i), sample=dict(test='incrow', **c) if i < 1 else None)
+        if what:
+            fails.append((f"compute_increments_from_imu, {c['kind']}-type: {what}",
+                          dict(key='increments-row', kind='incrow', case=c)))
+    for i in range(max(3, n_traj // 3)):
+        c = interleave_case(rng)
+        what = interleave_check(c)
+        r.case(('alive', r.seed, seed_off, i), sample=None)
+        if what:
+            fails.append((what, dict(key='integrators-alive-together', kind='alive', case=c)))
+    fails.sort(key=lambda f: {'incrow': 0, 'alive': 1, 'fd': 2}.get(f[1]['kind'], 3))
     ratios = []
     dist = {}
     for i in range(n_traj):
         kind = 'rate' if i % 2 == 0 else 'increment'
-        case = make_case(rng, kind, long=('gentle' if i < n_gentle else (i < n_gentle + n_long)))
+        case = make_case(rng, kind, long=('gentle' if i < n_gentle else (i < n_gentle + n_long)),
+                         hcls=(i // 2 + i) % 4 if i >= n_gentle else 0)
         if i >= n_gentle + n_long and i % 3 == 2:
             case.update(stepwise=True, T=2.0, h=max(case['h'], 0.01))
         if i >= n_gentle + n_long and i % 3 == 1:
@@ -339,7 +524,7 @@ def numeric_support(r, n_traj, n_fd, seed_off=0, n_long=0, n_gentle=0):
         e = info['err']
         ratios.append([max(e[k][g] / e[k + 1][g] for k in range(NLEV - 1)) if e[-1][g] > FLOOR0[g] * case.get('floor_scale', 1.0) else float('nan')
                        for g in range(3)])
-        dk = f"{kind},h={case['h']},T={case['T']}"
+        dk = f"{kind},h={case['h']:.6g},T={case['T']}"
         dist[dk] = dist.get(dk, 0) + 1
         r.case(('traj', r.seed, seed_off, i), sample=dict(case=case, info=info) if i < 2 else None)
         for b in bad:
@@ -376,15 +561,24 @@ def check(r):
         fails = numeric_support(r, 6, 40)
     else:
         fails = numeric_support(r, 200, 2000, n_long=20, n_gentle=4)
-    for what, rep in fails[:5]:
+    for what, rep in pick(fails):
         r.violation(what, rep)
     if r.tier == 'thorough':
         r.hygiene()
 
 
+def pick(fails, n=5):
+    """at most n failures, one of every kind of test first"""
+    seen, first, rest = set(), [], []
+    for f in fails:
+        (first if f[1]['kind'] not in seen else rest).append(f)
+        seen.add(f[1]['kind'])
+    return (first + rest)[:n]
+
+
 def falsify(r):
     fails = numeric_support(r, 24, 400, seed_off=7)
-    for what, rep in fails[:5]:
+    for what, rep in pick(fails):
         r.violation(what, rep)
 
 
@@ -398,6 +592,19 @@ def replay(obj):
             print("  ", b)
         print("max err/tol:", float((err / FD_TOL).max()))
         return 1 if bad else 0
+    if rep.get('kind') == 'incrow':
+        c = rep['case']
+        what = incrow_check(c)
+        print("IMU table (time, gyro xyz, accel xyz):")
+        for tk, row in zip(c['t'], c['rows']):
+            print("  ", repr(tk), row)
+        print("expected rows (dt, theta, dv):", incrow_expected(c['kind'], c['t'], c['rows']).tolist())
+        print("VIOLATED: " + what if what else "rows agree with the per-row formulas")
+        return 1 if what else 0
+    if rep.get('kind') == 'alive':
+        what = interleave_check(rep['case'])
+        print("VIOLATED: " + what if what else "every integrator reproduces its run alone bit for bit")
+        return 1 if what else 0
     if rep.get('kind') == 'traj':
         bad, info = halving_case(rep['case'])
         print("errors (pos m, vel m/s, att) at h, h/2, h/4, h/8:", info['err'])
